@@ -36,21 +36,36 @@ IncludeG(env, other) ==
   /\ (DOMAIN env.su) \cap (DOMAIN other.su) = {}
   /\ (DOMAIN env.en) \cap (DOMAIN other.en) = {}
   /\ AllConsts(env) \cap AllConsts(other) = {}
-Merge(f, g) == [x \in (DOMAIN f) \cup (DOMAIN g) |-> IF x \in DOMAIN f THEN f[x] ELSE g[x]]
-IncludeE(env, other) ==
+Merge(f, g) == Fn([x \in (DOMAIN f) \cup (DOMAIN g) |-> IF x \in DOMAIN f THEN f[x] ELSE g[x]])
+\* env.include(other), other being the FFI at position idx of the chain
+IncludeE(env, other, idx) ==
   [env EXCEPT !.td = Merge(@, other.td), !.su = Merge(@, other.su), !.en = Merge(@, other.en),
               !.kc = Merge(@, other.kc),
               \* _included_declarations (only struct/unions matter to the recompiler) + what came in
               !.inc = @ \cup (DOMAIN other.su) \cup {<<"enum", e>> : e \in DOMAIN other.en}
                         \cup {<<"td", n>> : n \in DOMAIN other.td}
-                        \cup {<<"k", c>> : c \in DOMAIN other.kc}]
+                        \cup {<<"k", c>> : c \in DOMAIN other.kc},
+              !.from = Append(@, idx)]
+\* a new FFI that includes the FFIs at the positions lst (in that order)
+RECURSIVE IncludeAll(_, _, _, _)
+IncludeAll(env, envs, lst, k) ==
+  IF k > Len(lst) THEN env ELSE IncludeAll(IncludeE(env, envs[lst[k]], lst[k]), envs, lst, k + 1)
+RECURSIVE IncludeAllG(_, _, _, _)
+IncludeAllG(env, envs, lst, k) ==
+  IF k > Len(lst) THEN TRUE
+  ELSE IncludeG(env, envs[lst[k]]) /\ IncludeAllG(IncludeE(env, envs[lst[k]], lst[k]), envs, lst, k + 1)
 
 (* ------------------------------------------------------------------ who owns what (ideal) *)
 Envs(ch, cur) == Append(ch, cur)
-\* the FFI (1-based position in the chain) that declared item x itself
-DeclaredIn(envs, j, x) == x \notin envs[j].inc
-OwnerSU(envs, j, key) == CHOOSE i \in 1..j : key \in DOMAIN envs[i].su /\ key \notin envs[i].inc
-OwnerEn(envs, j, e)   == CHOOSE i \in 1..j : e \in DOMAIN envs[i].en /\ <<"enum", e>> \notin envs[i].inc
+\* the FFIs reachable from j through include(), j itself included
+RECURSIVE AncClose(_, _)
+AncClose(envs, S) == LET S2 == S \cup UNION {{envs[i].from[k] : k \in DOMAIN envs[i].from} : i \in S}
+                     IN IF S2 = S THEN S ELSE AncClose(envs, S2)
+Anc(envs, j) == AncClose(envs, {j})
+\* the FFI that declared the item itself
+OwnerSU(envs, j, key) == CHOOSE i \in Anc(envs, j) : key \in DOMAIN envs[i].su /\ key \notin envs[i].inc
+OwnerEn(envs, j, e)   == CHOOSE i \in Anc(envs, j) : e \in DOMAIN envs[i].en /\ <<"enum", e>> \notin envs[i].inc
+OwnerTd(envs, j, n)   == CHOOSE i \in Anc(envs, j) : n \in DOMAIN envs[i].td /\ <<"td", n>> \notin envs[i].inc
 
 RECURSIVE IdealId(_, _, _)
 IdealId(envs, j, t) ==      \* t: resolved term of envs[j]
@@ -58,38 +73,49 @@ IdealId(envs, j, t) ==      \* t: resolved term of envs[j]
     [] t[1] = "enum" -> <<"enum", OwnerEn(envs, j, t[2]), t[2]>>
     [] t[1] = "ptr" -> Ptr(IdealId(envs, j, t[2]))
     [] t[1] = "arr" -> Arr(IdealId(envs, j, t[2]), t[3])
-    [] t[1] = "fnp" -> FnP(IdealId(envs, j, t[2]), [i \in DOMAIN t[3] |-> IdealId(envs, j, t[3][i])], t[4])
+    [] t[1] = "fnp" -> FnP(IdealId(envs, j, t[2]), Tup([i \in DOMAIN t[3] |-> IdealId(envs, j, t[3][i])]), t[4])
     [] OTHER -> t
 
+\* API mode: the names (functions, variables, own constants) lib[i] defines itself
+OwnNames(envs, i) == (DOMAIN envs[i].fn) \cup (DOMAIN envs[i].gv) \cup {c \in DOMAIN envs[i].kc : <<"k", c>> \notin envs[i].inc}
+\* lib[j] must reach name x of lib[i], i an included FFI of j (directly or not), when no other FFI
+\* among j and its includes defines the same name (then the lookup order decides: not constrained)
+MustReach(envs, j, i, x) ==
+  /\ i \in Anc(envs, j) \ {j} /\ x \in OwnNames(envs, i)
+  /\ \A m \in Anc(envs, j) \ {i} : x \notin OwnNames(envs, m)
+
 (* ------------------------------------------------------------------ generated modules (model) *)
-\* ffi_obj.c:_fetch_external_struct_or_union for the linear chain: module j asks its included
-\* module j-1, which asks j-2 ...; Ms = the encoded modules
-RECURSIVE FetchExternal(_, _, _, _)
-FetchExternal(Ms, j, name, isUnion) ==
-  IF j < 1 THEN 0                                       \* not found
-  ELSE LET n == Search(Ms[j].structs, name)
+\* ffi_obj.c:_fetch_external_struct_or_union(s, included_ffis): for every included ffi in order: its own
+\* struct_unions (same kind, not external there), else - recursively - its included ffis.  Ms = the
+\* encoded modules; 0 = not found
+RECURSIVE FetchList(_, _, _, _, _, _)
+FetchList(Ms, envs, lst, k, name, isUnion) ==
+  IF k > Len(lst) THEN 0
+  ELSE LET j == lst[k]
+           n == Search(Ms[j].structs, name)
        IN IF n >= 0 /\ (Ms[j].structs[n + 1].flags \div F_EXTERNAL) % 2 = 0
                     /\ ((Ms[j].structs[n + 1].flags \div F_UNION) % 2 = 1) = isUnion
           THEN j
-          ELSE FetchExternal(Ms, j - 1, name, isUnion)
+          ELSE LET x == FetchList(Ms, envs, envs[j].from, 1, name, isUnion)
+               IN IF x # 0 THEN x ELSE FetchList(Ms, envs, lst, k + 1, name, isUnion)
 
 \* the module whose ctype object module j uses for struct_unions entry `name`
-ModelOwnerSU(Ms, j, key) ==
+ModelOwnerSU(Ms, envs, j, key) ==
   LET n == Search(Ms[j].structs, key[2])
   IN IF n < 0 THEN 0
      ELSE IF (Ms[j].structs[n + 1].flags \div F_EXTERNAL) % 2 = 1
-          THEN FetchExternal(Ms, j - 1, key[2], key[1] = "union")
+          THEN FetchList(Ms, envs, envs[j].from, 1, key[2], key[1] = "union")
           ELSE j
 \* enums are realized by the module that is asked (no F_EXTERNAL for enums)
 ModelOwnerEn(Ms, j, e) == IF Search(Ms[j].enums, e) < 0 THEN 0 ELSE j
 
-RECURSIVE ModelId(_, _, _)
-ModelId(Ms, j, t) ==
-  CASE IsSU(t) -> <<t[1], ModelOwnerSU(Ms, j, t), t[2]>>
+RECURSIVE ModelId(_, _, _, _)
+ModelId(Ms, envs, j, t) ==
+  CASE IsSU(t) -> <<t[1], ModelOwnerSU(Ms, envs, j, t), t[2]>>
     [] t[1] = "enum" -> <<"enum", ModelOwnerEn(Ms, j, t[2]), t[2]>>
-    [] t[1] = "ptr" -> Ptr(ModelId(Ms, j, t[2]))
-    [] t[1] = "arr" -> Arr(ModelId(Ms, j, t[2]), t[3])
-    [] t[1] = "fnp" -> FnP(ModelId(Ms, j, t[2]), [i \in DOMAIN t[3] |-> ModelId(Ms, j, t[3][i])], t[4])
+    [] t[1] = "ptr" -> Ptr(ModelId(Ms, envs, j, t[2]))
+    [] t[1] = "arr" -> Arr(ModelId(Ms, envs, j, t[2]), t[3])
+    [] t[1] = "fnp" -> FnP(ModelId(Ms, envs, j, t[2]), Tup([i \in DOMAIN t[3] |-> ModelId(Ms, envs, j, t[3][i])]), t[4])
     [] OTHER -> t
 
 RECURSIVE HasEnum(_)
@@ -99,34 +125,63 @@ HasEnum(t) ==
     [] t[1] = "fnp" -> HasEnum(t[2]) \/ \E i \in DOMAIN t[3] : HasEnum(t[3][i])
     [] OTHER -> FALSE
 
-\* ffi_obj.c:ffi_fetch_int_constant (and lib_build_and_cache_attr for API-mode libs): search the
-\* module's own globals, else delegate to the included module
-RECURSIVE ModelConst(_, _, _)
-ModelConst(Ms, j, c) ==
-  IF j < 1 THEN "not found"
-  ELSE LET gi == Search(Ms[j].globals, c)
-       IN IF gi >= 0 THEN Ms[j].globals[gi + 1].val ELSE ModelConst(Ms, j - 1, c)
+\* ffi_obj.c:ffi_fetch_int_constant: the module's own globals, else - for every included ffi in order -
+\* the same search there
+RECURSIVE ModelConst(_, _, _, _), ModelConstList(_, _, _, _, _)
+ModelConst(Ms, envs, j, c) ==
+  LET gi == Search(Ms[j].globals, c)
+  IN IF gi >= 0 THEN Ms[j].globals[gi + 1].val ELSE ModelConstList(Ms, envs, envs[j].from, 1, c)
+ModelConstList(Ms, envs, lst, k, c) ==
+  IF k > Len(lst) THEN "not found"
+  ELSE LET x == ModelConst(Ms, envs, lst[k], c)
+       IN IF x # "not found" THEN x ELSE ModelConstList(Ms, envs, lst, k + 1, c)
+
+(* lib_obj.c:lib_build_and_cache_attr for API-mode libs: the lib's own globals, else every included lib
+   in order, recursively (with nothing cached yet).  Returns the module in which the name is found, 0
+   if nowhere.  Variant "one-level" recurses into an included lib only when the name is one of that
+   lib's own globals: the includes of an included lib are never searched. *)
+RECURSIVE ModelReach(_, _, _, _), ModelReachList(_, _, _, _, _)
+ModelReach(Ms, envs, j, x) ==
+  IF Search(Ms[j].globals, x) >= 0 THEN j ELSE ModelReachList(Ms, envs, envs[j].from, 1, x)
+ModelReachList(Ms, envs, lst, k, x) ==
+  IF k > Len(lst) THEN 0
+  ELSE LET r == IF variant = "one-level" /\ Search(Ms[lst[k]].globals, x) < 0 THEN 0
+                ELSE ModelReach(Ms, envs, lst[k], x)
+       IN IF r # 0 THEN r ELSE ModelReachList(Ms, envs, lst, k + 1, x)
 
 \* the clauses on which generated modules differ from the ideal, for the chain envs
 IncBad(envs, strict) ==
-  LET Ms == [j \in DOMAIN envs |-> Encode(envs[j])]
+  LET Ms == Tup([j \in DOMAIN envs |-> Encode(envs[j])])
   IN UNION { LET ev == envs[j] IN
        {<<"td", j, n>> : n \in {n \in DOMAIN ev.td : (strict \/ ~HasEnum(ev.td[n]))
-                                                     /\ ModelId(Ms, j, ev.td[n]) # IdealId(envs, j, ev.td[n])}}
-       \cup {<<"su", j, KeyStr(k)>> : k \in {k \in DOMAIN ev.su : ModelId(Ms, j, k) # IdealId(envs, j, k)}}
-       \cup {<<"en", j, e>> : e \in {e \in DOMAIN ev.en : strict /\ ModelId(Ms, j, <<"enum", e>>) # IdealId(envs, j, <<"enum", e>>)}}
-       \cup {<<"k", j, c>> : c \in {c \in AllConsts(ev) : ModelConst(Ms, j, c) # ConstVal(ev, c)}}
+                                                     /\ ModelId(Ms, envs, j, ev.td[n]) # IdealId(envs, j, ev.td[n])}}
+       \cup {<<"su", j, KeyStr(k)>> : k \in {k \in DOMAIN ev.su : ModelId(Ms, envs, j, k) # IdealId(envs, j, k)}}
+       \cup {<<"en", j, e>> : e \in {e \in DOMAIN ev.en : strict /\ ModelId(Ms, envs, j, <<"enum", e>>) # IdealId(envs, j, <<"enum", e>>)}}
+       \cup {<<"k", j, c>> : c \in {c \in AllConsts(ev) : ModelConst(Ms, envs, j, c) # ConstVal(ev, c)}}
+       \cup UNION {{<<"reach", j, x>> : x \in {x \in OwnNames(envs, i) : MustReach(envs, j, i, x) /\ ModelReach(Ms, envs, j, x) # i}}
+                   : i \in DOMAIN envs}
        \cup (IF Ms[j].ok THEN {} ELSE {<<"emit", j, "">>})
      : j \in DOMAIN envs }
 
 (* ------------------------------------------------------------------ the machine *)
-NewFFI ==
-  /\ Len(chain) + 1 < MaxFFIs
-  /\ cenv # EnvInit
-  /\ chain' = Append(chain, cenv)
-  /\ cenv' = IncludeE(EnvInit, cenv)
-  /\ hist' = Append(hist, <<"NewFFI", <<>>>>)
-  /\ UNCHANGED variant
+\* how = "prev": the new FFI includes the one just closed (a chain); "none": it includes nothing
+\* (a sibling of the earlier ones); "all": it includes every earlier FFI that no other earlier FFI includes
+Roots(envs) == {i \in DOMAIN envs : \A m \in DOMAIN envs : \A k \in DOMAIN envs[m].from : envs[m].from[k] # i}
+SetToSortedSeq(S) == SortSeq(SetToSeq(S), <)
+FromOf(envs, how) == CASE how = "prev" -> <<Len(envs)>>
+                       [] how = "none" -> <<>>
+                       [] how = "all"  -> SetToSortedSeq(Roots(envs))
+NewFFI(how) ==
+  LET envs == Append(chain, cenv)
+      lst == FromOf(envs, how)
+  IN /\ Len(chain) + 1 < MaxFFIs
+     /\ cenv # EnvInit
+     /\ how = "all" => Len(lst) >= 2
+     /\ IncludeAllG(EnvInit, envs, lst, 1)
+     /\ chain' = envs
+     /\ cenv' = IncludeAll(EnvInit, envs, lst, 1)
+     /\ hist' = Append(hist, <<"NewFFI", <<lst>>>>)
+     /\ UNCHANGED variant
 
 \* number of declarations made in the FFI being written
 RECURSIVE CountTail(_, _)
@@ -134,12 +189,13 @@ CountTail(h, i) == IF i = 0 \/ h[i][1] = "NewFFI" THEN 0 ELSE 1 + CountTail(h, i
 
 IInit == Init /\ variant \in Variants /\ chain = <<>>
 INext == \/ (Next /\ CountTail(hist, Len(hist)) < MaxPerFFI /\ UNCHANGED <<variant, chain>>)
-         \/ NewFFI
+         \/ \E how \in (IF "siblings" \in Feat THEN {"prev", "none", "all"} ELSE {"prev"}) : NewFFI(how)
 ISpec == IInit /\ [][INext]_ivars
 
 IncRefines ==
   variant = "faithful" =>
      LET b == IncBad(Envs(chain, cenv), FALSE)
      IN IF b = {} THEN TRUE ELSE PrintT(<<"BAD", b, hist>>) /\ FALSE
-IncProbe == (variant = "strict" /\ IncBad(Envs(chain, cenv), TRUE) # {}) => PrintT(<<"CAUGHT", variant, IncBad(Envs(chain, cenv), TRUE)>>)
+IncProbe == (variant # "faithful" /\ IncBad(Envs(chain, cenv), variant = "strict") # {})
+            => PrintT(<<"CAUGHT", variant, IncBad(Envs(chain, cenv), variant = "strict")>>)
 =============================================================================
